@@ -97,6 +97,22 @@ theorem performSwaps_decisions : ∀ (pos : Nat) (gs : List (Replica H)) (eqs : 
   | _, [_], _, _ => by simp [performSwaps]
   | _, _ :: _ :: _, [], _ => by simp [performSwaps]
 
+/-- the numbers a phase compares with its draws, as a function of the phase's *input* ladder -/
+def pairProbs : List (Replica H) → List Bool → List (Rat × Bool)
+  | a :: b :: rest, eq :: eqs => (pSwap I a b (!eq), !eq) :: pairProbs rest eqs
+  | _, _ => []
+
+/-- pairs of one phase do not interfere: every decision uses the two replicas that were at its
+positions when the phase started, and the cached flag of that pair -/
+theorem performSwaps_probs : ∀ (pos : Nat) (gs : List (Replica H)) (eqs : List Bool) (s : RS),
+    (performSwaps I pos gs eqs s).2.1.map (fun d => (d.p, d.evaluated)) = pairProbs I gs eqs
+  | pos, a :: b :: rest, eq :: eqs, s => by
+    simp only [performSwaps, List.map_cons, pairProbs, mkDec]
+    rw [performSwaps_probs (pos + 2) rest eqs _]
+  | _, [], _, _ => by simp [performSwaps, pairProbs]
+  | _, [_], _, _ => by simp [performSwaps, pairProbs]
+  | _, _ :: _ :: _, [], _ => by simp [performSwaps, pairProbs]
+
 /-! ### the pre-drawn variant -/
 
 theorem parallel_eq_serial : ∀ (pos : Nat) (gs : List (Replica H)) (eqs : List Bool) (s : RS),
